@@ -40,6 +40,10 @@ def _sim(cfg, n, depth, seed, consts=None):
                consts=consts, heap="2g", timeout=3000)
 
 
+def _bnd(cfg):
+    return tlc(SPEC, "GenLedger", cfg=cfg, workers=1, coverage=False, heap="2g", timeout=3000)
+
+
 def _take(ctx, what, r, s_run):
     """S runs must pass and fire the actions the property depends on; generator runs must finish."""
     if s_run:
@@ -64,10 +68,9 @@ def _key(o, beh):
     return "ledger:%s:%s" % (kind, op)
 
 
-def _replay(ctx, behs, probe=True, record=True):
-    """spec -> impl.  Returns (mismatches, stats).  With record=True every mismatch becomes a violation."""
-    p = ctx.wpath("ledger-beh-%d.ndjson" % len(behs))
-    write_ndjson(p, behs)
+def _replay_part(ctx, part, probe, tag):
+    p = ctx.wpath("ledger-beh-%s.ndjson" % tag)
+    write_ndjson(p, part)
     rc, out = vh(BIN, ["ledger", "replay", "probe=%d" % (1 if probe else 0)], stdin_path=p, timeout=7200)
     _rm(p)
     mism, stats, done = [], {}, None
@@ -79,19 +82,36 @@ def _replay(ctx, behs, probe=True, record=True):
             stats = o["stats"]
         elif "done" in o:
             done = o
-    if done is None or done["done"] != len(behs):
+    if done is None or done["done"] != len(part):
         raise ToolError("ledger replay did not complete")
+    return mism, stats, done
+
+
+def _replay(ctx, behs, probe=True, record=True, procs=4):
+    """spec -> impl, over `procs` harness processes.  Returns (mismatches, stats).  With record=True every mismatch becomes a violation."""
+    core.build_harness(BIN)
+    procs = max(1, min(procs, len(behs) // 50 or 1))
+    idx = [list(range(k, len(behs), procs)) for k in range(procs)]
+    res = _parallel([(_replay_part, (ctx, [behs[i] for i in ix], probe, "%d-%d" % (len(behs), k)), {}) for k, ix in enumerate(idx)])
+    mism, stats, steps, total = [], collections.Counter(), 0, 0
+    for ix, (m, st, done) in zip(idx, res):
+        for o in m:
+            o["b"] = ix[o["b"]]
+            mism.append(o)
+        stats.update(st)
+        steps += done["steps"]
+        total += done["mismatches"]
     if record:
         for o in mism:
             b = behs[o["b"]]
             ctx.violation(_key(o, b), "transaction %d of the behaviour: %s expected %s got %s" %
                           (o["step"], o["mismatch"], json.dumps(o["exp"])[:200], json.dumps(o["got"])[:300]),
                           {"module": "ledger", "behaviour": b, "tx": o["step"], "mismatch": o})
-        if done["mismatches"] > len(mism):
-            core.log("replay reported %d mismatches (first %d kept)" % (done["mismatches"], len(mism)))
+        if total > len(mism):
+            core.log("replay reported %d mismatches (first %d kept)" % (total, len(mism)))
         ctx.cov["traces_validated_against_impl"] += len(behs)
-        ctx.cov["evaluations"] += done["steps"]
-    return mism, stats
+        ctx.cov["evaluations"] += steps
+    return mism, dict(stats)
 
 
 def _selftest(ctx, behs):
@@ -143,6 +163,8 @@ def _sample(ctx, behs, pred):
                     "transactions_in_history": len(b["txs"])})
 
 
+BND_RULE = " The BOUNDARY set (never sampled, same in quick and thorough) is the full product (limit state reached by a scripted prefix: worktop = balance, part-locked vault, overlapping proofs, locked bucket on the worktop, burnt id, failed mint, lost signatures ...) x (every instruction kind that can consume it) x (every argument: amounts 0 .. balance + 1 granule in half-granule steps, all id sets), each followed by a closing sequence."
+
 ALL_OPS_CORE = ["IWithdraw", "ITakeFromWorktop", "ITakeAll", "IReturnToWorktop", "IDeposit", "IDepositBatch", "IMint", "IBurn",
                 "IAssertContains", "IAssertAny", "EndTx"]
 NF_OPS_CORE = ["IWithdrawNF", "ITakeNF", "IMintNF", "IAssertNF"]
@@ -155,13 +177,16 @@ HIST_OPS = ["IWithdraw", "IWithdrawNF", "ITakeAll", "IDeposit", "IDepositBatch",
             "IBurnNFInAccount", "IRecall", "IProofOfAmount", "IUpdateNFData", "EndTx"]
 
 
-def _run(ctx, s_jobs, g_jobs, quick_cap=None):
-    """s_jobs: [(cfg, consts, required_actions)], g_jobs: [("exh"|"sim", cfg, n, depth, consts)] -> behaviours"""
+def _run(ctx, s_jobs, g_jobs):
+    """s_jobs: [(cfg, consts, required_actions)]; g_jobs: [("bnd"|"exh"|"sim", cfg, n, depth, consts)] -> behaviours.
+    bnd: full boundary product, never sampled; exh: all paths of a tiny instance, n = cap in quick (0: none); sim: n seeded behaviours"""
     jobs = []
     for cfg, consts, req in s_jobs:
-        jobs.append((_mc, (cfg,), {"consts": consts, "workers": 1 if ctx.quick else (4 if len(s_jobs) == 1 else 2)}))
+        jobs.append((_mc, (cfg,), {"consts": consts, "workers": (2 if len(s_jobs) == 1 else 1) if ctx.quick else (4 if len(s_jobs) == 1 else 2)}))
     for i, g in enumerate(g_jobs):
-        if g[0] == "exh":
+        if g[0] == "bnd":
+            jobs.append((_bnd, (g[1],), {}))
+        elif g[0] == "exh":
             jobs.append((_gen, (g[1],), {"consts": g[4], "workers": 1}))
         else:
             jobs.append((_sim, (g[1], g[2], g[3], ctx.seed + i), {"consts": g[4]}))
@@ -171,8 +196,8 @@ def _run(ctx, s_jobs, g_jobs, quick_cap=None):
     behs = []
     for g, r in zip(g_jobs, res[len(s_jobs):]):
         b = _take(ctx, (g[1], ()), r, False)
-        if g[0] == "exh" and quick_cap and len(b) > quick_cap:
-            b = ctx.rng.sample(b, quick_cap)
+        if g[0] == "exh" and ctx.quick and g[2] and len(b) > g[2]:
+            b = ctx.rng.sample(b, g[2])        # bulk of an exhaustive set; the boundary products ("bnd") are never sampled
         behs += b
     return behs
 
@@ -212,8 +237,9 @@ def C09(ctx):
     behs = _run(ctx,
                 [("MCLedgerCore", {"MaxInstr": 5 if q else 8}, ALL_OPS_CORE),
                  ("MCLedgerCoreNF", {"MaxInstr": 4 if q else 6}, ALL_OPS_CORE + NF_OPS_CORE)],
-                [("exh", "GenLedgerTiny", 0, 0, None), ("exh", "GenLedgerTinyNF", 0, 0, None),
-                 ("sim", "SimLedger", 1000 if q else 12000, 12, None)] +
+                [("bnd", "BndLedgerW" if q else "BndLedgerAll", 0, 0, None),
+                 ("exh", "GenLedgerTiny", 0, 0, None), ("exh", "GenLedgerTinyNF", 0, 0, None),
+                 ("sim", "SimLedger", 400 if q else 12000, 12, None)] +
                 ([] if q else [("sim", "SimLedgerAll", 8000, 12, None)]))
     return _finish(ctx, behs,
                    "S: TLC checks on every reachable state/transition of Ledger.tla (fungible core, <= 5/8 instructions, and fungible + "
@@ -224,11 +250,11 @@ def C09(ctx):
                    "kinds) built with ManifestBuilder and executed by LedgerSimulator; compared: commit success/failure, error class "
                    "(%(classes)d classes predicted), index of the failing instruction (prefix probing), every account vault balance / id "
                    "set, total supplies and non-fungible data read from the database. %(ok)d of %(txs)d transactions commit successfully. "
-                   "distinct = distinct manifests with >= 2 instructions",
+                   "distinct = distinct manifests with >= 2 instructions." + BND_RULE,
                    ops_ok=["Withdraw", "WithdrawNF", "TakeFromWorktop", "TakeNF", "TakeAll", "ReturnToWorktop", "Deposit", "DepositBatch",
                            "Mint", "MintNF", "Burn", "AssertContains", "AssertAny", "AssertNF"],
                    errs=["WorktopInsufficient", "AssertionFailed", "BucketNotFound", "DropNonEmptyBucket", "OrphanedNodes",
-                         "InsufficientBalance", "InvalidAmount", "MissingId"])
+                         "InsufficientBalance", "InvalidAmount", "MissingId", "Unauthorized", "*", "NonFungibleAlreadyExists"])
 
 
 def C03(ctx):
@@ -236,8 +262,9 @@ def C03(ctx):
     behs = _run(ctx,
                 ([] if q else [("MCLedgerCore", {"MaxInstr": 8}, ALL_OPS_CORE)]) +
                 [("MCLedgerCoreNF", {"MaxInstr": 4 if q else 6}, ALL_OPS_CORE + NF_OPS_CORE)],
-                [("sim", "SimLedgerAll", 800 if q else 12000, 12, None),
-                 ("sim", "SimLedgerFG", 400 if q else 5000, 12, None)] +
+                [("bnd", "BndLedgerC03" if q else "BndLedgerAll", 0, 0, None),
+                 ("sim", "SimLedgerAll", 400 if q else 12000, 12, None),
+                 ("sim", "SimLedgerFG", 250 if q else 5000, 12, None)] +
                 ([] if q else [("exh", "GenLedgerTiny", 0, 0, None), ("sim", "SimLedgerHist", 2500, 24, None)]))
     res = _finish(ctx, behs,
                   "S: TLC checks the action properties Conservation (sum of vault balances after - before = minted - burned per "
@@ -247,7 +274,7 @@ def C03(ctx):
                   "successfully) with mint / burn / burn-in-account / recall / withdraw / deposit over a tracked resource of divisibility 2, "
                   "an untracked resource of divisibility 0 and a non-fungible resource; the predicted balance of EVERY account vault and "
                   "every TotalSupply field (absent for the untracked resource) is compared with the database after every transaction, "
-                  "so a balance and its event changing consistently is still seen. distinct = distinct manifests/histories with >= 2 instructions",
+                  "so a balance and its event changing consistently is still seen. distinct = distinct manifests/histories with >= 2 instructions." + BND_RULE,
                   extra_samples=[lambda b: any(i["op"] in ("Mint", "Burn", "Recall") for i in b["txs"][-1]["ins"]) and b["txs"][-1]["ok"]],
                   ops_ok=["Mint", "MintNF", "Burn", "BurnInAccount", "BurnNFInAccount", "Recall", "RecallNF", "Withdraw", "WithdrawNF",
                           "Deposit", "DepositBatch"],
@@ -261,44 +288,44 @@ def C10(ctx):
     behs = _run(ctx,
                 [("MCLedgerProofs", {"MaxInstr": 5 if q else 8}, PROOF_OPS),
                  ("MCLedgerProofsNF", {"MaxInstr": 4 if q else 6}, PROOF_OPS_NF)],
-                [("exh", "GenLedgerTinyProofs", 0, 0, None), ("exh", "GenLedgerTinyBucketProofs", 0, 0, None),
-                 ("sim", "SimLedgerProofs", 1500 if q else 25000, 14, None)] +
-                ([] if q else [("sim", "SimLedgerFG", 4000, 12, None), ("sim", "SimLedgerH", 3000, 14, None)]),
-                quick_cap=1200)
+                [("bnd", "BndLedgerL" if q else "BndLedgerAll", 0, 0, None),
+                 ("exh", "GenLedgerTinyBucketProofs", 0, 0, None),
+                 ("sim", "SimLedgerProofs", 600 if q else 25000, 14, None)] +
+                ([] if q else [("exh", "GenLedgerTinyProofs", 0, 0, None), ("sim", "SimLedgerFG", 4000, 12, None),
+                               ("sim", "SimLedgerH", 3000, 14, None)]))
     return _finish(ctx, behs,
                    "S: TLC checks on every interleaving of proof creation (account vault / bucket; amount / ids / all), cloning, "
                    "pop/push, dropping, withdraw, burn, recall, take, return, deposit (<= 5/8 instructions fungible, <= 4/6 non-fungible; "
                    "2 proof names, 2 auth-zone slots) LocksMatchProofs (locks of a container = live proofs on it), ProofBacked (the proven "
                    "amount/ids stay in the named container), TotalUnchangedByLocks (max-of-locks accounting), OnlyLiquidLeaves, "
-                   "UnlockedIsLiquid, NoLocksOutsideTx, DivisibilityState/Args. G: %(n)d model manifests (all manifests of <= 3 proof "
-                   "instructions of a tiny account-proof instance and of <= 5 instructions of a tiny bucket-proof instance + seeded manifests of up to 10 instructions weighted towards overlapping proofs; "
+                   "UnlockedIsLiquid, NoLocksOutsideTx, DivisibilityState/Args. G: %(n)d model manifests (all manifests of <= 5 instructions of a tiny "
+                   "bucket-proof instance, thorough: also of <= 3 instructions of a tiny account-proof instance; + seeded manifests of up to 10 instructions weighted towards overlapping proofs; "
                    "divisibility 2 and 0 with amounts of one digit too many, thorough: also 18) executed on the real ledger: outcome, error class, failing index "
-                   "and all balances compared. %(ok)d of %(txs)d commit. distinct = distinct manifests with >= 2 instructions",
+                   "and all balances compared. %(ok)d of %(txs)d commit. distinct = distinct manifests with >= 2 instructions." + BND_RULE,
                    extra_samples=[lambda b: sum(1 for i in b["txs"][-1]["ins"] if "Proof" in i["op"]) >= 3],
                    ops_ok=["ProofOfAmount", "ProofOfNF", "BucketProofOfAmount", "BucketProofOfAll", "BucketProofOfNF", "PopFromAuthZone",
                            "PushToAuthZone", "CloneProof", "DropProof", "DropAllProofs", "DropNamedProofs", "DropAuthZoneRegularProofs",
                            "Withdraw", "WithdrawNF", "Recall", "BurnInAccount", "TakeFromWorktop", "TakeAll", "ReturnToWorktop", "Deposit"],
                    errs=["InsufficientBalance", "BucketLocked", "InvalidAmount", "EmptyProofNotAllowed", "MissingId", "ProofNotFound",
-                         "AuthZoneIsEmpty", "Unauthorized"])
+                         "AuthZoneIsEmpty", "Unauthorized", "BucketNotFound", "WorktopInsufficient", "OrphanedNodes", "*"])
 
 
 def C43(ctx):
     q = ctx.quick
     behs = _run(ctx,
                 [("MCLedgerNF", {"MaxTx": 2 if q else 3}, NF_OPS)],
-                [("exh", "GenLedgerTinyHist", 0, 0, None),
-                 ("sim", "SimLedgerNF", 800 if q else 10000, 20, None)] +
-                ([] if q else [("sim", "SimLedgerAll", 4000, 12, None)]),
-                quick_cap=1000)
+                [("bnd", "BndLedgerH" if q else "BndLedgerAll", 0, 0, None),
+                 ("sim", "SimLedgerNF", 500 if q else 10000, 20, None)] +
+                ([] if q else [("exh", "GenLedgerTinyHist", 0, 0, None), ("sim", "SimLedgerAll", 4000, 12, None)]))
     return _finish(ctx, behs,
                    "S: TLC checks on all histories of <= 2/3 transactions of <= 3 instructions over an integer-id and a RUID resource "
                    "(3 ids each; mint, mint of a wrongly typed id, RUID mint, burn, burn in account, update data of a mutable and an "
                    "immutable field, failing transactions) LiveSubsetEver, HeldIdsAreLive, MintedOnce (history counter), EverMonotone, "
                    "MintFresh, RevertExact (a failed mint does not consume the id), DataChangeRestricted, UpdateOnlyLive. G: %(n)d model "
-                   "histories (%(txs)d transactions; all histories of 3 transactions of a tiny instance incl. burn-then-remint, + seeded "
+                   "histories (%(txs)d transactions; thorough: all histories of 3 transactions of a tiny instance incl. burn-then-remint; seeded "
                    "histories of 4 transactions) replayed on the real ledger; after every transaction the data entry of every id of the "
                    "universe is read back (live with fields / locked tombstone / absent), with vault id sets and supplies. "
-                   "distinct = distinct histories with >= 2 instructions",
+                   "distinct = distinct histories with >= 2 instructions." + BND_RULE,
                    extra_samples=[lambda b: any(t["err"] == "KeyValueEntryLocked" for t in b["txs"])],
                    ops_ok=["MintNF", "MintRuid", "Burn", "BurnNFInAccount", "UpdateNFData", "DepositBatch", "TakeAll", "WithdrawNF"],
                    errs=["NonFungibleAlreadyExists", "KeyValueEntryLocked", "NonFungibleNotFound", "UnknownMutableFieldName",
@@ -309,14 +336,15 @@ def C04(ctx):
     q = ctx.quick
     behs = _run(ctx,
                 [("MCLedgerHist", {"MaxTx": 2 if q else 3}, HIST_OPS)],
-                [("sim", "SimLedgerHist", 500 if q else 6000, 24, None)] +
+                [("bnd", "BndLedgerC04" if q else "BndLedgerAll", 0, 0, None),
+                 ("sim", "SimLedgerHist", 300 if q else 6000, 24, None)] +
                 ([] if q else [("sim", "SimLedgerNF", 3000, 20, None)]))
     res = _finish(ctx, behs,
                   "S: TLC checks on all histories of <= 2/3 transactions (<= 3 instructions each, failing ones included) SupplyMatches "
                   "(recorded supply = sum of all vaults incl. locked parts after every history), InTxSupply, NonNegative, "
                   "CommittedIsPre, NoLocksOutsideTx. G: %(n)d model histories (%(txs)d transactions, %(ok)d committed successfully) replayed; "
                   "after EVERY transaction every vault balance field, every non-fungible vault's amount field AND its id index, and every "
-                  "TotalSupply field are compared with the model. distinct = distinct histories with >= 2 instructions",
+                  "TotalSupply field are compared with the model. distinct = distinct histories with >= 2 instructions." + BND_RULE,
                   ops_ok=["Withdraw", "WithdrawNF", "Mint", "MintNF", "Burn", "BurnInAccount", "Recall", "Deposit", "DepositBatch", "TakeAll"],
                   errs=["InsufficientBalance", "DropNonEmptyBucket"])
     _trace_supply(ctx, res, conservation=False)
@@ -370,7 +398,7 @@ def _trace_supply(ctx, res, conservation):
     q = ctx.quick
     jobs = []
     if q:
-        jobs.append(("random", ["seed=%d" % ctx.seed, "n=220", "full=25"], "snap-random.ndjson"))
+        jobs.append(("random", ["seed=%d" % ctx.seed, "n=180", "full=25"], "snap-random.ndjson"))
         jobs.append(("scenarios", ["full=20", "names=" + QUICK_SCENARIOS], "snap-scenarios.ndjson"))
     else:
         for k in range(3):
